@@ -16,7 +16,9 @@ correspondence and the external-call tables, plus a list of cases evaluated agai
             | {"k": "nvrdoc", "tyA": .., "doc": <json>}
             | {"k": "tight", "side": "A"|"B", "ty": .., "doc": <json>}
             | {"k": "dec", "side": "A"|"B", "ty": .., "doc": .., "strict": bool}
-            | {"k": "wire", "side": "A"|"B", "ty": .., "v": ..}
+            | {"k": "wire", "side": "A"|"B", "ty": .., "v": ..}          (also: valid / normal / valWF / ambiguousEmpty / tyWF)
+            | {"k": "thmfwd", "tyA": .., "tyB": .., "v": ..}          hypotheses + right-hand side of C07.forward_compat
+            | {"k": "thmbwd", "tyA": .., "tyB": .., "v": ..}          hypotheses + right-hand side of C07.backward_compat
             | {"k": "eq", "side": "A"|"B", "a": <pyval>, "b": <pyval>} ]}
 -/
 open Lean
@@ -82,7 +84,26 @@ def runCase (st : State) (ρ : Rho) (A B : Env) (c : Json) : P Json := do
     let t ← tyOf (← jobj c "ty")
     let v ← pyValOf (← jobj c "v")
     pure (both st fun E => Json.mkObj [("ok", jsonTo (wire E env t v)), ("valid", validB E env t v),
-      ("normal", normalB env t v)])
+      ("normal", normalB env t v), ("valWF", RoundTrip.valWF E env t v),
+      ("ambiguousEmpty", RoundTrip.ambiguousEmpty env t v), ("tyWF", tyWF env t)])
+  | "thmfwd" =>
+    -- C07.forward_compat: the value-level hypotheses (sender B) and `view ρ A tA (canon B tB v)`
+    let tA ← tyOf (← jobj c "tyA")
+    let tB ← tyOf (← jobj c "tyB")
+    let v ← pyValOf (← jobj c "v")
+    pure (both st fun E => Json.mkObj [("tySub", tySub ρ tA tB), ("tyWF_A", tyWF A tA), ("tyWF_B", tyWF B tB),
+      ("valid", validB E B tB v), ("normal", normalB B tB v), ("valWF", RoundTrip.valWF E B tB v),
+      ("ambiguousEmpty", RoundTrip.ambiguousEmpty B tB v),
+      ("rhs", pyValTo (view ρ A tA (RoundTrip.canon B tB v)))])
+  | "thmbwd" =>
+    -- C07.backward_compat: the value-level hypotheses (sender A) and `lift ρ B tB (canon A tA v)`
+    let tA ← tyOf (← jobj c "tyA")
+    let tB ← tyOf (← jobj c "tyB")
+    let v ← pyValOf (← jobj c "v")
+    pure (both st fun E => Json.mkObj [("tySub", tySub ρ tA tB), ("tyWF_A", tyWF A tA),
+      ("valid", validB E A tA v), ("normal", normalB A tA v), ("valWF", RoundTrip.valWF E A tA v),
+      ("ambiguousEmpty", RoundTrip.ambiguousEmpty A tA v), ("noVoidToRequired", noVoidToRequired ρ A B tA v),
+      ("rhs", pyValTo (lift ρ B tB (RoundTrip.canon A tA v)))])
   | "eq" =>
     let env ← sideEnv A B c
     let a ← pyValOf (← jobj c "a")
@@ -107,6 +128,10 @@ def handle (op : String) (j : Json) : Except String Json := do
     pure (Json.mkObj [("ok", true), ("envWF_A", envWF A), ("envWF_B", envWF B), ("rhoWF", ρ.wf),
       ("envWFU_A", envWFU A), ("envWFU_B", envWFU B), ("envWFX_A", envWFX A), ("fieldFlagsWF_A", fieldFlagsWF A),
       ("compatEnv", compatEnv ρ A B),
+      -- the environment-level domain conditions of the wire-form theorems (C04's round trip for the sender)
+      ("envRT_A", RoundTrip.envRT A), ("envRT_B", RoundTrip.envRT B),
+      ("dfltsRefl_A", RoundTrip.dfltsReflB (mkExt ext false) A && RoundTrip.dfltsReflB (mkExt ext true) A),
+      ("dfltsRefl_B", RoundTrip.dfltsReflB (mkExt ext false) B && RoundTrip.dfltsReflB (mkExt ext true) B),
       ("badPairs", Json.arr ((ρ.filter fun p => !pairOk ρ A B p).map fun p => Json.arr #[Json.str p.1, Json.str p.2]).toArray),
       ("results", Json.arr out)])
   | _ => throw s!"unknown op {op}"
